@@ -155,6 +155,7 @@ func appendsValue(c *ssa.Call, v ssa.Value) bool {
 
 func runC16(p *Prog, r *Report, tier string) {
 	checkSetLengthBookkeeping(p, r, "R-PAIR.set-length")
+	checkPrepareKeepsBody(p, r, "R-PAIR.prepare-keeps-body")
 
 	// (2) reset completeness
 	written := map[string]string{} // field -> a method that writes it
@@ -367,23 +368,7 @@ func runC16(p *Prog, r *Report, tier string) {
 		}
 		r.Check(n == 1 && okG, "R-EQUIV.prepare", fnKey(f)+": PrepareRecord once for template records", p.pos(f.Pos()), "one call, guarded by setType == Template, outside loops", "the template record header is not written exactly once", true)
 	}
-	// the copying paths never adopt the caller's slice: the adopting constructors are called from AddRecordV2 only
-	g := p.CallGraph()
-	for _, name := range []string{"pkg/entities.NewDataRecordFromElements", "pkg/entities.NewTemplateRecordFromElements"} {
-		f := p.Fn(name)
-		if f == nil {
-			continue
-		}
-		for _, cs := range g.callers[f] {
-			r.Check(cs.Parent() == av2, "R-EQUIV.no-adopt", fnKey(cs.Parent())+": calls "+f.Name(), p.instrPos(cs), "the slice-adopting constructor is used by AddRecordV2 only",
-				"a copying add path adopts the caller's element slice: the record changes when the caller reuses its slice, so the add paths are no longer byte-identical", true)
-		}
-	}
-	for _, cs := range g.callers[av2] {
-		if keyInPkg(fnKey(cs.Parent()), "pkg/entities") && (cs.Parent() == are || cs.Parent() == ar) {
-			r.Violation("R-EQUIV.no-adopt", fnKey(cs.Parent())+": delegates to AddRecordV2", p.instrPos(cs), "a copying add path delegates to the slice-adopting path: records alias the caller's slice")
-		}
-	}
+	checkNoAdopt(p, r, "R-EQUIV.no-adopt")
 	// record constructors / accessors
 	checkRecordSummaries(p, r)
 	checkSetAccessors(p, r, "R-VALUE.set-accessors")
@@ -606,5 +591,74 @@ func checkResetOnAllPaths(p *Prog, r *Report, rule string, fields []string) {
 		}
 		r.Check(!bad, rule, fnKey(rs)+": "+fld+" "+what+" on every encoding path", p.pos(rs.Pos()), "every path with isDecoding == false stores it",
 			"a path through ResetSet of an encoding set leaves "+fld+" as it was: after a reset the set does not behave like a new one (e.g. it keeps its type and can be sent without PrepareSet); path "+p.describePath(rs, trail), true)
+	}
+}
+
+// checkNoAdopt: the copying add paths never adopt the caller's element slice (imported by C01: records of one set that
+// alias a reused slice all go out with the last record's values).
+func checkNoAdopt(p *Prog, r *Report, rule string) {
+	are := p.Fn("(*pkg/entities.set).AddRecordWithExtraElements")
+	av2 := p.Fn("(*pkg/entities.set).AddRecordV2")
+	ar := p.Fn("(*pkg/entities.set).AddRecord")
+	if are == nil || av2 == nil {
+		r.Undecided(rule, "anchor: set add functions", "pkg/entities/set.go", "not found")
+		return
+	}
+	// the copying paths never adopt the caller's slice: the adopting constructors are called from AddRecordV2 only
+	g := p.CallGraph()
+	for _, name := range []string{"pkg/entities.NewDataRecordFromElements", "pkg/entities.NewTemplateRecordFromElements"} {
+		f := p.Fn(name)
+		if f == nil {
+			continue
+		}
+		for _, cs := range g.callers[f] {
+			r.Check(cs.Parent() == av2, rule, fnKey(cs.Parent())+": calls "+f.Name(), p.instrPos(cs), "the slice-adopting constructor is used by AddRecordV2 only",
+				"a copying add path adopts the caller's element slice: the record changes when the caller reuses its slice, so the add paths are no longer byte-identical", true)
+		}
+	}
+	for _, cs := range g.callers[av2] {
+		if keyInPkg(fnKey(cs.Parent()), "pkg/entities") && (cs.Parent() == are || cs.Parent() == ar) {
+			r.Violation(rule, fnKey(cs.Parent())+": delegates to AddRecordV2", p.instrPos(cs), "a copying add path delegates to the slice-adopting path: records alias the caller's slice")
+		}
+	}
+}
+
+// checkPrepareKeepsBody: PrepareRecord runs after the field specifiers / values were appended; it may fill in the 4-byte
+// record header in place but must not cut the record buffer back (a re-slice of the buffer to fewer than 4 bytes that is
+// stored back, or appended to, discards everything added so far: the buffer is no longer the record's reported content).
+func checkPrepareKeepsBody(p *Prog, r *Report, rule string) {
+	n := 0
+	for _, f := range p.RepoFns {
+		k := fnKey(f)
+		if f.Name() != "PrepareRecord" || !keyInPkg(k, "pkg/entities") {
+			continue
+		}
+		n++
+		bad := ""
+		pos := p.pos(f.Pos())
+		eachInstr(f, func(in ssa.Instruction) {
+			st, ok := in.(*ssa.Store)
+			if !ok {
+				return
+			}
+			if _, fn, _, ok := fieldOf(st.Addr); !ok || fn != "buffer" {
+				return
+			}
+			for _, v := range backwardSlice(st.Val, 64) {
+				sl, ok := v.(*ssa.Slice)
+				if !ok || sl.High == nil || !isFieldLoad(sl.X, "pkg/entities.baseRecord.buffer") {
+					continue
+				}
+				if h, ok := constInt(sl.High); ok && h < 4 {
+					bad = fmt.Sprintf("buffer re-sliced to [:%d] and stored back", h)
+					pos = p.instrPos(in)
+				}
+			}
+		})
+		r.Check(bad == "", rule, k+": the record buffer is not cut back", pos, "header written in place; bytes appended before PrepareRecord stay",
+			bad+": the field specifiers / values appended before PrepareRecord are discarded, the record's bytes no longer match what the set accounted for", true)
+	}
+	if n == 0 {
+		r.Undecided(rule, "anchor: PrepareRecord", "pkg/entities/record.go", "not found")
 	}
 }
